@@ -210,3 +210,83 @@ func TestC10_MgrxCleanup(t *testing.T) {
 		}
 	})
 }
+
+// TestC10_MgrxReplay: a restart replays the blocks the receiver already holds;
+// recorded progress must not move and a second restart must skip what was recorded.
+func TestC10_MgrxReplay(t *testing.T) {
+	sp := stats.For("C10")
+	rapid.Check(t, func(t *rapid.T) {
+		r := newMgrRig(t, gen.Peer(0), dbl.NewRecDatastore(), "T/a")
+		defer r.stop()
+		var log []string
+		role := rapid.SampledFrom([]string{"createPull", "receivePush"}).Draw(t, "role")
+		c := openRole(t, r, &log, role, 905, false)
+		n := rapid.IntRange(1, 8).Draw(t, "blocks")
+		var bytesWant uint64
+		for i := 1; i <= n; i++ {
+			_, _ = r.report(c, int64(i), uint64(100*i), true)
+			bytesWant += uint64(100 * i)
+		}
+		r.syncAll()
+		restart := func(label string) {
+			tr0 := r.tr.Len()
+			if role == "createPull" {
+				if err := r.mgr.RestartDataTransferChannel(bg(), c.chid); err != nil {
+					mfail(t, log, "C10/restart-error", "%s: %v", label, err)
+				}
+			} else {
+				req := newRequestMsg(c.chid.ID, true, false, c.voucher, c.base, c.sel)
+				r.recv().ReceiveRequest(bg(), c.other, req)
+			}
+			r.syncAll()
+			var open *dbl.TCall
+			for _, call := range r.tr.Since(tr0) {
+				if call.Kind == "open" && call.Chid == c.chid {
+					cc := call
+					open = &cc
+				}
+			}
+			if open == nil || open.Channel == nil {
+				mfail(t, log, "C10/pull-restart-open", "%s: no transport open with the stored channel state", label)
+			}
+			log = append(log, fmt.Sprintf("%s: transport told that %d blocks are already held", label, open.Channel.ReceivedCidsTotal()))
+			if open.Channel.ReceivedCidsTotal() != int64(n) {
+				mfail(t, log, "C10/skip-count", "%s tells the sender to skip %d blocks, %d were recorded as received", label, open.Channel.ReceivedCidsTotal(), n)
+			}
+		}
+		restart("first restart")
+		k := rapid.IntRange(1, n).Draw(t, "replayed")
+		for i := 1; i <= k; i++ {
+			// the receiver's graphsync re-traverses the blocks it already holds: not on the wire, not unique
+			_, _ = r.report(c, int64(i), uint64(100*i), false)
+			if rapid.IntRange(0, 5).Draw(t, "processRestart") == 0 {
+				r.restartProcess([]datatransfer.TypeIdentifier{"T/a"})
+				log = append(log, "process restart")
+			}
+			v, _ := r.vec(c.chid)
+			log = append(log, fmt.Sprintf("replayed position %d -> received=%d/%d", i, v.Received, v.ReceivedIdx))
+			if v.ReceivedIdx != int64(n) || v.Received != bytesWant {
+				mfail(t, log, "C10/progress-changed-by-replay", "replay of position %d after the restart changed recorded progress to %d bytes / %d blocks (was %d / %d)", i, v.Received, v.ReceivedIdx, bytesWant, n)
+			}
+		}
+		// interrupted again during the replay
+		restart("second restart")
+		// the rest arrives over the wire
+		extra := rapid.IntRange(0, 3).Draw(t, "newBlocks")
+		for i := n + 1; i <= n+extra; i++ {
+			_, _ = r.report(c, int64(i), 50, true)
+			bytesWant += 50
+		}
+		v, _ := r.vec(c.chid)
+		if v.Received != bytesWant || v.ReceivedIdx != int64(n+extra) {
+			mfail(t, log, "C10/double-progress", "after the healed transfer: received %d bytes / %d blocks, want %d / %d", v.Received, v.ReceivedIdx, bytesWant, n+extra)
+		}
+		sp.Eval()
+		fp := stats.FP("replay", role, n, k, extra)
+		sp.Nontrivial(fp)
+		sp.Class("restart_with_replayed_positions")
+		if sp.WantSample() {
+			sp.Sample(fp, map[string]any{"engine": "mgrx", "case": log})
+		}
+	})
+}
